@@ -472,6 +472,12 @@ class CEval(object):
             g = And(ptypes.dt_test('CObj', v.t), g)
         return SV(TBool, g)
 
+    def i_typeof_obj(self, n):
+        v = self.ev(n.args[0])
+        cls = self.ev(n.args[1])
+        cname = cls.t.val if cls.t is not None and cls.t.op == 'const' else ast.literal_eval(n.args[1])
+        return SV(TBool, Eq(Select(self.ex.cls_arr(), v.t), IntC(self.ex.program.class_id(cname))))
+
     def i_has_key(self, n):
         d, k = self.ev(n.args[0]), self.ev(n.args[1])
         return SV(TBool, self.ex.dict_has(self.st, d, k))
